@@ -5,6 +5,7 @@ package interceptor
 import (
 	"bytes"
 	"fmt"
+	replicationv1 "go.temporal.io/server/api/replication/v1"
 	"strings"
 	"testing"
 
@@ -78,34 +79,62 @@ func TestVerifBlobRepair(t *testing.T) {
 					invalid := &commonpb.DataBlob{EncodingType: markerBlob.EncodingType, Data: bytes.ReplaceAll(markerBlob.Data, []byte("abc"+dmg[0]+"def"), []byte("abc"+dmg[1]+"def"))}
 					want := build("abc" + strings.ToValidUTF8(dmg[1], "\uFFFD") + "def")
 					id := fmt.Sprintf("size=%d mask=%d damage=%d deep=%d", size, mask, di, variant)
-					n++
-					msg := &adminservice.GetWorkflowExecutionRawHistoryV2Response{HistoryBatches: []*commonpb.DataBlob{invalid}}
-					_, verr := visitNamespace(logger, msg, createStringMatcher(map[string]string{"absent": "absent2"}))
-					if verr != nil {
-						bad++
-						fmt.Fprintf(w, "BLOB %s ERROR %v\n", id, verr)
-						continue
+					// the same batch in a list-valued blob field and in the single-blob fields of a replication task
+					type container struct {
+						name string
+						msg  proto.Message
+						get  func() *commonpb.DataBlob
 					}
-					got, derr := s.DeserializeEvents(msg.HistoryBatches[0])
-					switch {
-					case derr != nil:
-						bad++
-						fmt.Fprintf(w, "BLOB %s what was handed on does not decode with the standard serializer: %v\n", id, derr)
-					case len(got) != len(want):
-						bad++
-						fmt.Fprintf(w, "BLOB %s %d events handed on, %d expected\n", id, len(got), len(want))
-					default:
-						for i := range want {
-							if !proto.Equal(got[i], want[i]) {
-								bad++
-								fmt.Fprintf(w, "BLOB %s event %d differs from the batch with only the offending bytes replaced\n", id, i)
-								break
-							}
+					mkContainers := func(b *commonpb.DataBlob) []container {
+						raw := &adminservice.GetWorkflowExecutionRawHistoryV2Response{HistoryBatches: []*commonpb.DataBlob{b}}
+						mkTask := func(attrs *replicationv1.HistoryTaskAttributes) (*adminservice.StreamWorkflowReplicationMessagesResponse, *replicationv1.HistoryTaskAttributes) {
+							return &adminservice.StreamWorkflowReplicationMessagesResponse{Attributes: &adminservice.StreamWorkflowReplicationMessagesResponse_Messages{
+								Messages: &replicationv1.WorkflowReplicationMessages{ReplicationTasks: []*replicationv1.ReplicationTask{{
+									Attributes: &replicationv1.ReplicationTask_HistoryTaskAttributes{HistoryTaskAttributes: attrs}}}}}}, attrs
+						}
+						m1, a1 := mkTask(&replicationv1.HistoryTaskAttributes{NamespaceId: "nsid", WorkflowId: "wf", Events: b})
+						m2, a2 := mkTask(&replicationv1.HistoryTaskAttributes{NamespaceId: "nsid", WorkflowId: "wf", NewRunEvents: b})
+						m3, a3 := mkTask(&replicationv1.HistoryTaskAttributes{NamespaceId: "nsid", WorkflowId: "wf", EventsBatches: []*commonpb.DataBlob{b}})
+						return []container{
+							{"HistoryBatches[0]", raw, func() *commonpb.DataBlob { return raw.HistoryBatches[0] }},
+							{"HistoryTaskAttributes.Events", m1, func() *commonpb.DataBlob { return a1.Events }},
+							{"HistoryTaskAttributes.NewRunEvents", m2, func() *commonpb.DataBlob { return a2.NewRunEvents }},
+							{"HistoryTaskAttributes.EventsBatches[0]", m3, func() *commonpb.DataBlob { return a3.EventsBatches[0] }},
 						}
 					}
-					if mask == 0 && !bytes.Equal(msg.HistoryBatches[0].Data, invalid.Data) {
-						bad++
-						fmt.Fprintf(w, "BLOB %s a valid batch did not come out byte-identical\n", id)
+					for _, c := range mkContainers(&commonpb.DataBlob{EncodingType: invalid.EncodingType, Data: append([]byte{}, invalid.Data...)}) {
+						if c.name != "HistoryBatches[0]" && (size+mask+di+variant)%2 == 1 {
+							continue // the single-blob fields get every other case
+						}
+						n++
+						cid := id + " in " + c.name
+						_, verr := visitNamespace(logger, c.msg, createStringMatcher(map[string]string{"absent": "absent2"}))
+						if verr != nil {
+							bad++
+							fmt.Fprintf(w, "BLOB %s ERROR %v\n", cid, verr)
+							continue
+						}
+						got, derr := s.DeserializeEvents(c.get())
+						switch {
+						case derr != nil:
+							bad++
+							fmt.Fprintf(w, "BLOB %s what was handed on does not decode with the standard serializer: %v\n", cid, derr)
+						case len(got) != len(want):
+							bad++
+							fmt.Fprintf(w, "BLOB %s %d events handed on, %d expected\n", cid, len(got), len(want))
+						default:
+							for i := range want {
+								if !proto.Equal(got[i], want[i]) {
+									bad++
+									fmt.Fprintf(w, "BLOB %s event %d differs from the batch with only the offending bytes replaced\n", cid, i)
+									break
+								}
+							}
+						}
+						if mask == 0 && !bytes.Equal(c.get().Data, invalid.Data) {
+							bad++
+							fmt.Fprintf(w, "BLOB %s a valid batch did not come out byte-identical\n", cid)
+						}
 					}
 				}
 			}
